@@ -22,10 +22,11 @@ pub fn def() -> PropDef {
 }
 
 /// known finding "remove-spaces-merges-line-comments": a single line comment followed by another
-/// comment with nothing but white space in between
+/// single line comment with nothing but white space in between (a block comment after a line comment
+/// is kept on its own line by the unchanged code and is not part of the finding)
 pub fn has_line_comment_followed_by_comment(source: &str) -> bool {
     let Ok(l) = lex(source, Mode::Luau) else { return false };
-    l.comments.windows(2).any(|w| !w[0].long && source[w[0].end..w[1].start].chars().all(|c| c.is_whitespace()))
+    l.comments.windows(2).any(|w| !w[0].long && !w[1].long && source[w[0].end..w[1].start].chars().all(|c| c.is_whitespace()))
 }
 
 #[allow(dead_code)]
